@@ -76,6 +76,13 @@ FIRST_LOOK = {  # recorded when the seed was first run, before any rule was touc
  "C13-13": "missed", "C13-14": "caught", "C13-15": "caught (by the floor of R13e: the escape table moved out of the switch the rule reads)",
  "C15-13": "caught (by the floor of R15d)", "C15-14": "missed", "C15-15": "missed",
  "C29-13": "caught", "C29-14": "missed by C29, caught by C28 (an alarm on an assertion that a closure predicate does guard)", "C29-15": "caught",
+ "C36-13": "caught (R36a: a policy alarm on parsing outside formatBytes)", "C36-14": "caught", "C36-15": "caught",
+ "C01-13": "missed", "C01-14": "missed", "C01-15": "missed",
+ "C34-13": "caught", "C34-14": "caught", "C34-15": "caught (undecided: the sort is no longer where R34a looks)",
+ "C18-13": "missed", "C18-14": "missed", "C18-15": "missed",
+ "C14-13": "caught", "C14-14": "caught", "C14-15": "caught",
+ "C32-13": "caught", "C32-14": "missed", "C32-15": "caught (by the floor of R32c: `defer close(…)` was not a shape the rule read)",
+ "C35-13": "caught", "C35-14": "caught", "C35-15": "caught",
  "C10-10": "missed", "C10-11": "missed", "C10-12": "unknown-shape alarm only (a false one: R10e took `Pos{}` in reset() for state; corrected)",
 }
 def key(d):
